@@ -397,4 +397,23 @@ def cache_offset (z : Zone) (x : Int) (localDir : Bool) : Res (Mapped Int) :=
   else
     .ok ((z.find_local_time_type_from_local x).and_then (fun l => east_opt l.off))
 
+/-! ### mod.rs — the result contract: `TimeZone::from_local_datetime` for `Local` -/
+
+/-- `NaiveDateTime::MIN` / `MAX` as timestamps (-262143-01-01T00:00:00 / +262142-12-31T23:59:59);
+`Props.C05.ndt_range_ok` ties them to the specification's calendar -/
+def NDT_MIN_TS : Int := -8334601228800
+def NDT_MAX_TS : Int := 8210266876799
+
+/-- `local.checked_sub_offset(off)`: the instant `x - o`, `None` outside the `NaiveDateTime` range -/
+def checked_sub_offset (x o : Int) : Option Int :=
+  if NDT_MIN_TS ≤ x - o ∧ x - o ≤ NDT_MAX_TS then some (x - o) else none
+
+/-- `TimeZone::from_local_datetime(&Local, local)` =
+`offset_from_local_datetime(local).and_then(|off| local.checked_sub_offset(off).map(|dt| DateTime::from_naive_utc_and_offset(dt, off)))`;
+a `DateTime<Local>` is the pair (instant, offset); `x` is `local.and_utc().timestamp()` -/
+def local_from_local_datetime (z : Zone) (x : Int) : Res (Mapped (Int × Int)) :=
+  match cache_offset z x true with
+  | .panic => .panic
+  | .ok m => .ok (m.and_then (fun o => (checked_sub_offset x o).map (fun t => (t, o))))
+
 end Chrono.M.TzL
